@@ -32,6 +32,12 @@ type World struct {
 	// package invariants: package path -> clauses (assumed at entry of the package's functions,
 	// proved at the end of the package initialiser and at every return of functions under contract)
 	PkgInv map[string][]*PkgInvariant
+	// lock discipline (C16): guard declarations by field-heap name / by global name ("glob.<mangled>")
+	GuardField  map[string]*GuardDecl
+	GuardGlobal map[string]*GuardDecl
+	GuardType   map[string]types.Type // field-heap name -> the struct type (for `this`)
+	GuardDecls  []*GuardDecl
+	mayLock     map[*ssa.Function]int
 	// refinement: function key of an implementing method -> (impl block, interface method contract)
 	Refines map[string]*Refinement
 	Impls   []*ImplBlock
@@ -46,7 +52,7 @@ type Refinement struct {
 func loadWorld(p *Program, specDirs []string) (*World, error) {
 	w := &World{P: p, Contracts: map[string]*Contract{}, Funcs: map[string]*SpecFunc{}, AxByName: map[string]*Axiom{},
 		Types: map[string]*DataType{}, Ghosts: map[string]*GhostVar{}, ImportsOf: map[*Contract]map[string]string{},
-		FnOf: map[*Contract]*ssa.Function{}, PkgInv: map[string][]*PkgInvariant{}, Refines: map[string]*Refinement{}}
+		FnOf: map[*Contract]*ssa.Function{}, PkgInv: map[string][]*PkgInvariant{}, GuardField: map[string]*GuardDecl{}, GuardGlobal: map[string]*GuardDecl{}, GuardType: map[string]types.Type{}, Refines: map[string]*Refinement{}}
 	addFile := func(sf *SpecFile, pkg string) {
 		for _, f := range sf.Funcs {
 			if _, dup := w.Funcs[f.Name]; dup {
@@ -68,6 +74,50 @@ func loadWorld(p *Program, specDirs []string) (*World, error) {
 		w.Impls = append(w.Impls, sf.Impls...)
 		for _, iv := range sf.Invariants {
 			w.PkgInv[iv.Pkg] = append(w.PkgInv[iv.Pkg], iv)
+		}
+		for _, g := range sf.Guards {
+			w.GuardDecls = append(w.GuardDecls, g)
+			path := g.Pkg
+			if g.Alias != "" {
+				if ip, ok := sf.Imports[g.Alias]; ok {
+					path = ip
+				} else {
+					path = g.Alias
+				}
+			}
+			pk := w.P.ByPath[path]
+			if pk == nil {
+				w.Orphans = append(w.Orphans, fmt.Sprintf("%s:%d: guarded: unknown package %s", g.File, g.Line, path))
+				continue
+			}
+			if g.Kind == "global" {
+				if pk.Types.Scope().Lookup(g.Name) == nil {
+					w.Orphans = append(w.Orphans, fmt.Sprintf("%s:%d: guarded: unknown global %s.%s", g.File, g.Line, path, g.Name))
+					continue
+				}
+				w.GuardGlobal["glob."+mangle(path+"."+g.Name)] = g
+				continue
+			}
+			obj := pk.Types.Scope().Lookup(g.Type)
+			if obj == nil {
+				w.Orphans = append(w.Orphans, fmt.Sprintf("%s:%d: guarded: unknown type %s.%s", g.File, g.Line, path, g.Type))
+				continue
+			}
+			st, ok := obj.Type().Underlying().(*types.Struct)
+			found := false
+			if ok {
+				for i := 0; i < st.NumFields(); i++ {
+					if st.Field(i).Name() == g.Name || g.Name == "*" {
+						found = true
+						hn := fieldHeapName(obj.Type(), st.Field(i).Name())
+						w.GuardField[hn] = g
+						w.GuardType[hn] = obj.Type()
+					}
+				}
+			}
+			if !found {
+				w.Orphans = append(w.Orphans, fmt.Sprintf("%s:%d: guarded: no field %s in %s.%s", g.File, g.Line, g.Name, path, g.Type))
+			}
 		}
 		for _, c := range sf.Contracts {
 			w.ImportsOf[c] = sf.Imports
